@@ -73,6 +73,21 @@ CHECKS = {
         "Trusted: constant absolute paths across repetitions; OS thread ids in panic banners are masked (crashes are C10/C18's subject).",
         "DESIGN.md section 5, C16",
     ),
+    "C18": (
+        "crash + invariant monitor over the real back end: BackendProgram::lower and every renderer/emitter under catch_unwind; independent re-validation of the SPS-low and assembly arenas and of the AMD64 / LLVM text (llvm-as-14)",
+        "Every accepted generated program and every executable fixture is lowered through stack IR, closure conversion and assembly to AMD64 (2 formats) and LLVM (4 triples); a panic is a violation, "
+        "an Err value a defined outcome; the produced arenas are traversed by the harness's own validators (closed root, first-order blocks, unique labels, no sharing, guarded coproduct matches, "
+        "product layouts, existing jump targets/symbols) and emitted text is checked for label/extern consistency. Exploration.",
+        "Trusted: the harness validators' reading of the stated IR invariants. Two back-end limitations are recorded as open known findings (mixed constructor/catch-all arms, nested constructor patterns).",
+        "DESIGN.md section 5, C18",
+    ),
+    "C19": (
+        "three-way differential monitor: harness CBPV reference evaluator vs repository interpreter vs the harness's first-order SPS machine executing BackendProgram.sps_low with a host model (dispatch by numeric tag)",
+        "Each accepted, lowerable generated program and each hand-written tag-order case is run three ways and stdout + exit code are compared; the SPS machine implements jump, let-arg, co-case, "
+        "open-closure/continuation and the Returning/Control extern conventions of the native emitter. Exploration; stages below SPS-low are covered structurally by C18 only (no nasm / runtime offline).",
+        "Trusted: the harness SPS machine and host model as a reading of sps_low; the generator's termination by construction.",
+        "DESIGN.md section 5, C19",
+    ),
     "C08": (
         "invariant monitor over zydeco_utils::graph on every digraph with <=4 nodes (exhaustive) against transitive-closure SCCs, three drain protocols; language-level permutation metamorphism",
         "Every adjacency matrix on 1..4 nodes incl. self-loops and target-only nodes is run through Kosaraju + top()/release() three ways and through obliviate/keep_only; "
